@@ -95,4 +95,12 @@ pub fn pick_plain(r: &mut Rng, n: usize, kind: u64, qs: &[u64]) -> u64 {
         _ => { let m = *qs.iter().min().unwrap(); let mut t = m + 2 + 2 * r.below(50); while qs.iter().any(|&q| gcd(q, t) != 1) { t += 1; } t }
     }
 }
+/// an NTT-friendly prime of about `bits` bits that is 1 modulo the plain modulus (the shape `create_with_plain_modulus` produces): dropping it
+/// leaves a BGV correction factor unchanged (q^-1 mod t = 1), the guarded fast paths of the switching routines are taken
+pub fn prime_one_mod(n: usize, t: u64, bits: usize, avoid: &[u64]) -> Option<u64> {
+    let f = (2 * n as u64).checked_mul(t)?;
+    if (64 - f.leading_zeros() as usize) + 2 > bits { return None; }
+    let ps = std::panic::catch_unwind(|| hu::get_primes(f, bits, 3)).ok()?;
+    ps.iter().map(|m| m.value()).find(|p| !avoid.contains(p))
+}
 pub fn gcd(a: u64, b: u64) -> u64 { if b == 0 { a } else { gcd(b, a % b) } }
